@@ -15,4 +15,4 @@ rm -f Makefile Makefile.conf .Makefile.d
 find . -name '*.vo' -o -name '*.vok' -o -name '*.vos' -o -name '*.glob' -o -name '.*.aux' | xargs rm -f
 rm -rf cases
 coq_makefile -f _CoqProject -o Makefile > /dev/null
-timeout 3000 make -j16
+timeout 3000 make -k -j16
